@@ -173,9 +173,37 @@ def run_external(smt, tlimit_s):
     return out
 
 
-def model_valuation(model, inputs):
+def model_valuation(model, inputs, E=None):
     val = {}
     for name, kind in inputs.items():
+        if isinstance(kind, tuple):
+            continue
+    for name, kind in inputs.items():
+        if isinstance(kind, tuple):
+            # array input: evaluate the model's interpretation on the (small) index space
+            import numpy as np
+            f, shape, dtype = E.array_inputs[name]
+            dims = []
+            for d in shape:
+                dv = model.eval(I(d), model_completion=True) if not isinstance(d, int) else None
+                dims.append(d if isinstance(d, int) else dv.as_long())
+            if any(x > 6 for x in dims) or int(np.prod(dims)) > 4096:
+                raise Unsupported(f'counter-model has a large array {name}{dims}')
+            data = np.zeros(dims, dtype={'bool': bool, 'int': int, 'float': float}[dtype])
+            import itertools as _it
+            for idx in _it.product(*[range(x) for x in dims]):
+                v = model.eval(f(*[z3.IntVal(i) for i in idx]), model_completion=True)
+                if dtype == 'bool':
+                    data[idx] = z3.is_true(v)
+                elif dtype == 'int':
+                    data[idx] = v.as_long()
+                else:
+                    if z3.is_algebraic_value(v):
+                        v = v.approx(20)
+                    fr = v.as_fraction()
+                    data[idx] = float(fractions.Fraction(fr.numerator, fr.denominator))
+            val[name] = data
+            continue
         c = {'float': z3.Real, 'int': z3.Int, 'bool': z3.Bool}[kind](name)
         v = model.eval(c, model_completion=True)
         if kind == 'int':
@@ -190,10 +218,53 @@ def model_valuation(model, inputs):
     return val
 
 
+def small_valuation(E, ob, model):
+    """valuation of the inputs from the counter-model; with array inputs a model with small arrays is looked for"""
+    inputs = ob.get('inputs', {})
+    arrays = getattr(E, 'array_inputs', {})
+    if any(isinstance(k, tuple) for k in inputs.values()) and arrays:
+        so = z3.Solver()
+        so.set('timeout', 10000)
+        so.add(*ob['pc'])
+        g = ob['goal']
+        so.add(z3.Not(g if not isinstance(g, bool) else z3.BoolVal(g)))
+        for name, (f, shape, dtype) in arrays.items():
+            for d in shape:
+                if not isinstance(d, int):
+                    so.add(I(d) <= 3)
+        if so.check() == z3.sat:
+            model = so.model()
+    return model_valuation(model, inputs, E)
+
+
+def val_to_json(val):
+    out = {}
+    for k, v in val.items():
+        if hasattr(v, 'tolist'):
+            out[k] = {'__array__': v.tolist(), 'dtype': str(v.dtype)}
+        else:
+            out[k] = str(v)
+    return out
+
+
+def json_to_val(d):
+    import numpy as np
+    val = {}
+    for k, v in d.items():
+        if isinstance(v, dict) and '__array__' in v:
+            val[k] = np.array(v['__array__'], dtype=v['dtype'])
+        elif v in ('True', 'False'):
+            val[k] = v == 'True'
+        elif '/' in v or v.lstrip('-').isdigit():
+            val[k] = fractions.Fraction(v)
+    return val
+
+
 # ---------------------------------------------------------------------------------- replay on the real code
 def real_call(C, E, st, cfg):
     """call the REAL function of C on the realized state; returns (outcome, realizer)"""
     RZ = (getattr(C, 'realizer', None) or Realizer)()
+    RZ.E = E
     fn, cls, modname = E.src.find(C.func)
     if fn.name == '__init__' and cls is not None:
         import discretisedfield as df
@@ -238,11 +309,12 @@ def replay(mod, C, cfg, valuation, want=None):
     fval = {}
     for k, v in valuation.items():
         fval[k] = fractions.Fraction(float(v)) if isinstance(v, fractions.Fraction) else v
+    mags_arr = [float(abs(v).max()) for v in fval.values() if hasattr(v, 'shape') and v.size and v.dtype != bool]
     E.valuation = fval
     E.pc = []
     mags = [abs(float(v)) for v in fval.values() if isinstance(v, (fractions.Fraction, float))]
-    TE.ATOL[0] = 1e-9 * max(mags + [1e-290])
-    info = {'inputs': {k: (float(v) if isinstance(v, fractions.Fraction) else v) for k, v in fval.items()}}
+    TE.ATOL[0] = 1e-9 * max(mags + mags_arr + [1e-290])
+    info = {'inputs': {k: (float(v) if isinstance(v, fractions.Fraction) else (v.tolist() if hasattr(v, 'tolist') else v)) for k, v in fval.items()}}
     try:
         st = C.pre_state(E, cfg)
         bad = [str(a) for a in getattr(st, 'assume', []) if not TE.teval(a if not isinstance(a, bool) else z3.BoolVal(a))]
@@ -332,15 +404,17 @@ def run_task(args):
             rec = {k: ob[k] for k in ('key', 'id', 'config', 'kind', 'text')}
             rec.update(status=status, backend=backend, seconds=round(secs, 3), reason=reason, contract=cname, cfg=cfg)
             res['solver_seconds'] += secs
-            if status == 'failed' and model is not None and not mutant:
-                val = model_valuation(model, ob.get('inputs', {}))
-                rec['model'] = {k: str(v) for k, v in val.items()}
-                if C.func is not None:
-                    rec['replay'] = replay(mod, C, cfg, val, want=ob['text'])
-                else:
-                    rec['replay'] = {'reproduced': False, 'note': 'lemma over contracts: no single real call to replay'}
-            elif status == 'failed' and model is not None:
-                rec['model'] = {k: str(v) for k, v in model_valuation(model, ob.get('inputs', {})).items()}
+            if status == 'failed' and model is not None:
+                try:
+                    val = small_valuation(E, ob, model)
+                    rec['model'] = val_to_json(val)
+                    if not mutant:
+                        if C.func is not None:
+                            rec['replay'] = replay(mod, C, cfg, val, want=ob['text'])
+                        else:
+                            rec['replay'] = {'reproduced': False, 'note': 'lemma over contracts: no single real call to replay'}
+                except Unsupported as e:
+                    rec['replay'] = {'reproduced': False, 'note': f'counter-model could not be made concrete: {e}'}
             if status == 'error':
                 res['error'] = reason
             res['obligations'].append(rec)
@@ -379,6 +453,10 @@ def crosscheck_task(args):
         so.set('timeout', 5000)
         so.set('random_seed', seed % 1000)
         so.add(*[a for a in getattr(st, 'assume', []) if not isinstance(a, bool)])
+        for name, (f_, shape, dtype) in getattr(E, 'array_inputs', {}).items():
+            for d in shape:
+                if not isinstance(d, int):
+                    so.add(I(d) <= 3)
         rnd = random.Random(seed * 7919 + hash(cname) % 1000)
         for nm, kind in E.inputs.items():
             if kind == 'float':
@@ -393,7 +471,12 @@ def crosscheck_task(args):
                     so.pop()
         if so.check() != z3.sat:
             return out
-        val = model_valuation(so.model(), E.inputs)
+        val = model_valuation(so.model(), E.inputs, E)
+        for name, (f_, shape, dtype) in getattr(E, 'array_inputs', {}).items():
+            if dtype == 'float':
+                val[name] = np_random_like(val[name], rnd)
+            elif dtype == 'bool':
+                val[name] = np_random_like(val[name], rnd, boolean=True)
         fval = {k: (fractions.Fraction(float(v)) if isinstance(v, fractions.Fraction) else v) for k, v in val.items()}
         # 2. interpreter on the concrete state
         E2 = new_engine(mod, src)
@@ -427,6 +510,7 @@ def crosscheck_task(args):
             out['mismatch'] = f'outcome differs: engine {sym_out[:2]} vs CPython {rout[:2]} inputs {fval}'
             return out
         if sym_out[0] == 'return':
+            _CANON_E[0] = E2
             a = canon(sym_out[1])
             b = canon(RZ.lift(rout[1]))
             if not close_struct(a, b):
@@ -438,6 +522,14 @@ def crosscheck_task(args):
     except Exception as e:
         out['mismatch'] = f'cross-check crashed: {e!r} {traceback.format_exc()[-600:]}'
         return out
+
+
+def np_random_like(a, rnd, boolean=False):
+    import numpy as np
+    out = np.zeros(a.shape, dtype=bool if boolean else float)
+    for idx in np.ndindex(a.shape):
+        out[idx] = (rnd.random() < 0.6) if boolean else rnd.randint(-20, 20) / rnd.choice([1, 2, 4])
+    return out
 
 
 def canon(v):
@@ -458,10 +550,12 @@ def canon(v):
     if isinstance(v, SymSeq):
         n = tofloat(v.length) if not isinstance(v.length, int) else v.length
         return [canon(v.elem(j)) for j in range(int(n))]
-    h = getattr(v, '__canon__', None)
-    if h is not None:
-        return h()
+    if type(v).__name__ == 'NDArr':
+        return ('ndarray', v.to_numpy(_CANON_E[0]).tolist())
     return v
+
+
+_CANON_E = [None]
 
 
 def close_struct(a, b):
@@ -560,10 +654,7 @@ def replay_obligation(mod, ob):
     if 'model' not in ob:
         print('no counter-model stored for this obligation:', ob['id'])
         return 0
-    val = {k: fractions.Fraction(v) for k, v in ob['model'].items() if '/' in v or v.lstrip('-').isdigit()}
-    for k, v in ob['model'].items():
-        if v in ('True', 'False'):
-            val[k] = v == 'True'
+    val = json_to_val(ob['model'])
     info = replay(mod, C, ob['cfg'], val, want=ob['text'])
     print(json.dumps(info, indent=1, default=str))
     return 1 if info.get('reproduced') else 0
